@@ -110,18 +110,28 @@ def gen_targets(seed: int, tier: dict, pools) -> list[dict]:
     per_fam = tier.get("per_family", 3)
     n_gen = len(gen_fams)
     gen_slots = [gen_fams[i // per_fam] for i in range(n_gen * per_fam)]
-    for i in range(len(gen_slots) + max(8, n_models // 3)):
+    script_slots = [x for x in pools.script_models if "/fusion/" in x[0]]
+    rng.sub("scriptorder").shuffle(script_slots)
+    script_slots = script_slots[:tier.get("script_models", 8)]
+    for i in range(len(gen_slots) + len(script_slots) + max(8, n_models // 3)):
         r = rng.sub("m", i)
         if i < len(gen_slots):
             f, text = genmodels.gen_model(r.sub("gen"), gen_slots[i])
             m = {"pool": "text", "text": text, "family": f}
+        elif i < len(gen_slots) + len(script_slots):
+            f, fn, src = script_slots[i - len(gen_slots)]
+            m = {"pool": "script", "src": src, "fn": fn, "family": "script:" + f}
         else:
             m = pools.model_ref(r, family=r.choice(fams) if r.chance(0.6) else None)
         fam = m.pop("family", None) or m.get("path", "")
         k = r.randint(3, 5)
         for j in range(k):
             _, kind, params = r.weighted([(c, c[0]) for c in OBJECT_CONFIGS])
-            if j == 0 and fam in FAMILY_AFFINITY:
+            if j == 0 and fam.startswith("script:") and "/fusion/" in fam:
+                # the rule tests' own recipe: optimize, then apply the fusion rule set named by the test file
+                mod = os.path.basename(fam).replace("_extended_test.py", "").replace("_test.py", "")
+                kind, params = "rewrite", {"rules": "fusion:" + mod, "api": "apply", "pre_optimize": True}
+            elif j == 0 and fam in FAMILY_AFFINITY:
                 # make sure the family meets the rule set that stashes its parameters
                 kind, params = "rewrite", {"rules": FAMILY_AFFINITY[fam], "api": r.choice(["apply", "proto", "ir"])}
             if kind == "convert" and m["pool"] == "onnx_backend" and r.chance(0.5):
@@ -425,6 +435,128 @@ def minimise_history(run: dict, v: dict, ref: dict, pyc: str, budget: int) -> di
     return best
 
 
+# ------------------------------------------------------------------ script shrinking (translate targets)
+
+def _stmt_paths(tree) -> list[tuple]:
+    """Paths (list objects, index) of every statement inside function bodies, innermost last."""
+    import ast
+
+    out = []
+
+    def walk(body):
+        for i, st in enumerate(body):
+            out.append((body, i))
+            for fld in ("body", "orelse"):
+                sub = getattr(st, fld, None)
+                if isinstance(sub, list) and sub and isinstance(sub[0], ast.stmt):
+                    walk(sub)
+
+    for node in tree.body:
+        if isinstance(node, ast.FunctionDef):
+            walk(node.body)
+    return out
+
+
+def minimise_script(op: dict, still_fails, budget: int = 24) -> dict:
+    """Greedy statement deletion on the script source of a translate operation while `still_fails(op')` holds."""
+    import ast
+
+    from dsim.c14.pools import with_id
+
+    best = copy.deepcopy(op)
+    try:
+        tree = ast.parse(best["src"])
+    except SyntaxError:
+        return best
+    calls = 0
+    progress = True
+    while progress and calls < budget:
+        progress = False
+        paths = _stmt_paths(tree)
+        for body, i in reversed(paths):
+            if calls >= budget:
+                break
+            if len(body) <= 1 or isinstance(body[i], ast.Return):
+                continue
+            removed = body.pop(i)
+            cand = copy.deepcopy(best)
+            try:
+                cand["src"] = ast.unparse(tree)
+            except Exception:  # noqa: BLE001
+                body.insert(i, removed)
+                continue
+            with_id(cand)
+            calls += 1
+            if still_fails(cand):
+                best = cand
+                progress = True
+                break  # paths are stale after a deletion: recompute
+            body.insert(i, removed)
+        # also try dropping whole top-level helper functions / assignments
+        if not progress:
+            for i in range(len(tree.body) - 1, -1, -1):
+                if calls >= budget:
+                    break
+                node = tree.body[i]
+                if isinstance(node, (ast.Import, ast.ImportFrom)):
+                    continue
+                if isinstance(node, ast.FunctionDef) and node.name in (best.get("fns") or []):
+                    continue
+                removed = tree.body.pop(i)
+                cand = copy.deepcopy(best)
+                cand["src"] = ast.unparse(tree)
+                with_id(cand)
+                calls += 1
+                if still_fails(cand):
+                    best = cand
+                    progress = True
+                    break
+                tree.body.insert(i, removed)
+    return best
+
+
+def _shrink_translate_doc(doc: dict, cls: str, pyc: str, repo: str) -> dict:
+    """Shrink the script of a translate target for seed-dependent / globals-leak / repeat-call-differs replays.
+    Only when the violation also shows in plain single-operation processes (otherwise the exact reference specs stay)."""
+    def env(h):
+        return {"hashseed": h, "gc": "default", "repo": repo, "skew": [0], "aslr_off": True}
+
+    if cls == "seed-dependent":
+        op, hs = doc["op"], doc["hashseeds"]
+        if op["kind"] != "translate":
+            return doc
+
+        def fails(o):
+            res = []
+            for h in hs:
+                r = launcher.launch({"mode": "sequential", "env": env(h), "ops": [o]}, pyc, 300)
+                if "error" in r or r["log"][0].get("status") != "ok":
+                    return False
+                res.append(canon(r["log"][0]))
+            return len(set(res)) > 1
+
+        if not fails(op):
+            return doc
+        small = minimise_script(op, fails)
+        return {"op": small, "hashseeds": hs, "shrunk_from_lines": op["src"].count("\n") + 1, "shrunk_to_lines": small["src"].count("\n") + 1}
+    if cls in ("globals-leak", "repeat-call-differs"):
+        spec = doc["spec"]
+        if len(spec["ops"]) != 1 or spec["ops"][0]["kind"] != "translate":
+            return doc
+        op = spec["ops"][0]
+
+        def fails(o):
+            r = launcher.launch({"mode": "sequential", "env": spec["env"], "ops": [o]}, pyc, 300)
+            return "error" not in r and any(x["class"] == cls for x in internal_violations(o, r["log"][0]))
+
+        if not fails(op):
+            return doc
+        small = minimise_script(op, fails)
+        return {"spec": {"mode": "sequential", "env": spec["env"], "ops": [small]},
+                "shrunk_from_lines": op["src"].count("\n") + 1, "shrunk_to_lines": small["src"].count("\n") + 1}
+    return doc
+
+
 # ------------------------------------------------------------------ replay
 
 def replay_doc(doc: dict, pyc: str) -> tuple[bool, str]:
@@ -503,6 +635,7 @@ def check(tier_name: str, seed: int, max_runs: int | None = None) -> int:
     pyc = os.path.join(root, "pyc")
     findings = common.load_findings()
     harness_errors: list[str] = []
+    harness_notes: list[str] = []
     reported: list[tuple[str, dict]] = []
     known_hits: collections.Counter = collections.Counter()
     try:
@@ -646,6 +779,10 @@ def check(tier_name: str, seed: int, max_runs: int | None = None) -> int:
                        "ref_spec": spec_of.get((h0, c["v"]["op_id"]))}
             else:
                 doc = c["doc"]
+                try:
+                    doc = _shrink_translate_doc(doc, c["class"], pyc, repo)
+                except Exception as e:  # noqa: BLE001 - shrinking is best effort; the unshrunk replay is still exact
+                    harness_notes.append(f"script shrinking skipped: {type(e).__name__}: {e}")
             doc.update({"property": PROP, "kit": common.KIT_VERSION, "seed": seed,
                         "expect": {"class": c["class"], "signature": c["sig"], "detail": c["detail"]}})
             path = common.write_replay(PROP, f"{seed}-{c['class']}-{sha(key.encode())[:8]}", doc)
